@@ -76,6 +76,7 @@ var tenantValues = [][]string{{"a"}, {"b"}, {"c"}, {"a", "b"}, {"a", "c"}, {"b",
 func GenScenario(r *rand.Rand, p Profile) *Scenario {
 	sc := &Scenario{Sig: Signal(r.IntN(3)), HookSeed: r.Uint64(), Tracing: p.Tracing}
 	sc.EndSpans = p.Tracing && sc.HookSeed%2 == 0 // half of the traced scenarios: callers end their span on return
+	sc.CancelOnReturn = (sc.HookSeed>>8)%3 == 1   // a third of all scenarios: callers cancel their own context on return
 	if p.Sig >= 0 {
 		sc.Sig = Signal(p.Sig)
 	}
